@@ -23,6 +23,9 @@ CHECKS = {
  "C05": ("fault_enumeration", "runtime monitor: all subsets x {dry, real} x every crash point x every failing read of delete_bands; independent reference scan + restore oracle",
          "For generated archives every subset of versions is deleted (dry and real); for real deletes every crash point of the delete's storage trace and every read/list/metadata fault of four kinds is replayed; an independent reference scan and restore-and-compare of every kept complete version decide the outcome.",
          "Trusted: E2 reader; kill = no later storage effect.", "3 C05"),
+ "C06": ("exploration", "runtime monitor: deterministic scheduler parks every storage operation of a backup and a gc running on their own threads; all schedules to a preemption bound + random; restore + reference-scan oracle at the end",
+         "Backup and gc/delete run concurrently on one archive with every storage operation parked until a deterministic scheduler grants it; all schedules with <=1 preemption, all 2-preemption schedules of one scenario (every scenario in the thorough tier) and random 3-5-switch schedules are executed against the real code, over archives with garbage blocks that the backup deduplicates against. After both finish every complete version must restore exactly and reference no removed block.",
+         "Granularity is one storage operation (all archive I/O goes through Transport); interleavings beyond preemption bound 2 are sampled. Trusted: settled-detection of the scheduler (park callbacks + tracked top-level waker), E2 reader.", "3 C06"),
  "C11": ("exploration", "runtime monitor: executable order/validity model compared with Apath on exhaustive small alphabets + emitters observed on generated trees",
          "All pairs/triples of valid paths over two alphabets up to depth 4/3 and every string over a 13-component alphabet (exhaustive within the bound) are compared against an independent statement of the documented order and validity rule; the source walk, listings and independently decoded hunks of generated trees must be strictly increasing under it.",
          "Trusted: oracle::apath_key as restatement of doc/format.md; snap + serde_json to decode hunks.", "3 C11"),
